@@ -223,7 +223,9 @@ CHECKS = {
         rule=("whole core against the simulated world; rapid-generated teardown scenarios: workflow with 1-3 tasks, 0-3 DESTROY/after_DESTROY probe "
               "hooks at weights -2..2, optionally a call whose await point is never reached; either drive to DEPLOYED/CONFIGURED/RUNNING/ERROR and "
               "destroy with drawn force / allowInRunningState / keepTasks flags (rarely with every KILL refused by the master), or make the "
-              "creation fail at a drawn stage (template error, detector in use, launch failure, no agent, critical CONFIGURE error). Oracle after "
+              "creation fail at a drawn stage (template error, detector in use, launch failure, no agent, critical CONFIGURE error, or a critical "
+              "hook failing at before_CONFIGURE while another call started earlier in that moment waits to be collected at a later weight; the "
+              "same hook pair at before_START_ACTIVITY is one of the two ways the ERROR state is reached). Oracle after "
               "the call returns: not listed, no launched task still locked, every task ever owned received a KILL unless keepTasks, unowned "
               "leftovers die at the next CleanupTasks, detectors free and the workflow can be created again, no hook-call goroutine left "
               "(pprof dump of the core), DESTROY hooks ran exactly once and only when no task was owned any more, refused kills => error. "
